@@ -17,6 +17,9 @@
      ParseWrite.reopen_write_fixpoint  write_fp of the opened, unedited object gives the image back (no reshuffle)
      ParseTrunc.parse_truncation_lengths  (for ANY image) a record that reaches beyond the end of the image, and
                                   every record linked to its Inode, carries the Inode's length = bytes left
+     ParseTotalInst (C15)         parse_file_total_any_image / parse_total_any_image (termination on ANY bytes),
+                                  parse_work_bounded_partial (quadratic bound), parse_work_bounded_refuted
+                                  (no linear bound: overlapping directories), parse_only_documented_errors
      ParseExamples                non-vacuity; graph_of_level, parse_infers_level_refuted,
                                   parse_truncation_example, parse_truncation_refuted_old (the code before
                                   commit 10cfb30), parse_share_lengths_differ *)
